@@ -198,6 +198,25 @@ def theorems_of(mod):
     return res
 
 
+def write_generated(name, content, summary=None):
+    """Used by translators: (re)write lean/CffiVerif/Generated/<name>.lean when the
+    content extracted from /repo changed.  Returns a description for the evidence.
+    Must be called with the LakeLock held (prove() does that)."""
+    d = os.path.join(LEAN, "CffiVerif", "Generated")
+    os.makedirs(d, exist_ok=True)
+    path = os.path.join(d, name + ".lean")
+    header = ("-- GENERATED by /verif/translate from the working tree of /repo on every check run.\n"
+              "-- Do not edit: the check rewrites this file whenever the extracted source changes.\n")
+    new = header + content
+    old = open(path).read() if os.path.exists(path) else None
+    changed = old != new
+    if changed:
+        with open(path, "w") as f:
+            f.write(new)
+    return {"generated": "CffiVerif.Generated." + name, "changed_since_commit": changed,
+            "summary": summary or ""}
+
+
 def lake_build(targets, timeout=3000):
     t0 = time.time()
     r = run(["lake", "build", *targets], cwd=LEAN, timeout=timeout)
